@@ -1,5 +1,6 @@
 import RichModel.Lemmas.Ratio
 import RichModel.Props.C01
+import RichModel.Props.C17
 /-!
 # C09 — measurements are sound bounds on what rendering produces
 
@@ -175,5 +176,68 @@ def exTable : R :=
 
 example : measureGet C01.nowCfg exTable 40 = ⟨14, 19⟩ ∧ smin cwR exTable = 10 := by decide +kernel
 example : (renderedLines C01.nowCfg exTable {} 19).map (lineLength cwR) = [19, 19, 19, 19, 19, 19] := by decide +kernel
+
+end RichModel.C09
+
+/-! ## `rich.syntax.Syntax` (not a renderable of C01's trees): the clause for its own `__rich_measure__`
+
+Re-exported from Props/C17.lean (model `RichModel.Syntax`, whose rows the C17 check compares with real rich character for
+character), so that this property's axiom audit covers them.  `measureV false` is the repaired variant
+(pending_fixes/C09-syntax-measure-one-short.diff), `measureV true` rich 9.10.0 as found. -/
+namespace RichModel.C09
+
+/-- Repaired: with line numbers and an explicit `code_width`, every rendered row takes at most the reported maximum
+`code_width + numbers column + 1` cells — exactly that many on a non-transparent background (padded cells).  Hypotheses of the
+render path: cropping on (`options.no_wrap` off or word wrap on), blanks / digits / pointers one cell wide, no character wider
+than two cells; `C17.Setting`: clean source, lexer contract, indent guides off, room for a row under word wrap. -/
+theorem syntax_measure_maximum_sound (cw : Char → Nat) (h1 : ∀ c, RichModel.Syntax.GutterChar c → cw c = 1) (h2 : ∀ c, cw c ≤ 2)
+    (o : RichModel.Syntax.Opts) (found : Bool) (lex : List Char → List RichModel.Syntax.Line) (code : List Char)
+    (h : RichModel.C17.Setting o found lex code) (hn : o.lineNumbers = true) (hnc : RichModel.C17.noCrop o = false)
+    (w : Nat) (hw : o.codeWidth = some w) :
+    ∃ rows, RichModel.Syntax.numberedRows cw false false o found lex code = .ok rows ∧
+      ∀ r ∈ rows,
+        cellLen cw (r.render (RichModel.Syntax.numbersColumnWidth o code) o.legacyWindows) ≤
+          (RichModel.Syntax.measureV false o code o.maxWidth).2 ∧
+        (o.pad = true →
+          cellLen cw (r.render (RichModel.Syntax.numbersColumnWidth o code) o.legacyWindows) =
+            (RichModel.Syntax.measureV false o code o.maxWidth).2) :=
+  RichModel.C17.measure_maximum_sound cw h1 h2 o found lex code h hn hnc w hw
+
+/-- Either variant, `code_width` None: rows take at most the width offered once the gutter and its blank fit. -/
+theorem syntax_measure_maximum_sound_auto (cw : Char → Nat) (h1 : ∀ c, RichModel.Syntax.GutterChar c → cw c = 1) (h2 : ∀ c, cw c ≤ 2)
+    (short : Bool) (o : RichModel.Syntax.Opts) (found : Bool) (lex : List Char → List RichModel.Syntax.Line) (code : List Char)
+    (h : RichModel.C17.Setting o found lex code) (hn : o.lineNumbers = true) (hnc : RichModel.C17.noCrop o = false)
+    (hw : o.codeWidth = none) (hroom : RichModel.Syntax.numbersColumnWidth o code + 1 ≤ o.maxWidth) :
+    ∃ rows, RichModel.Syntax.numberedRows cw false false o found lex code = .ok rows ∧
+      ∀ r ∈ rows,
+        cellLen cw (r.render (RichModel.Syntax.numbersColumnWidth o code) o.legacyWindows) ≤
+          (RichModel.Syntax.measureV short o code o.maxWidth).2 :=
+  (RichModel.C17.measure_maximum_sound_auto cw h1 h2 short o found lex code h hn hnc hw hroom).imp
+    (fun _ hr => ⟨hr.1, fun r hmem => (hr.2 r hmem).1⟩)
+
+/-- Either variant, without line numbers: every row takes at most the reported maximum. -/
+theorem syntax_measure_maximum_fits_without_numbers (cw : Char → Nat) (hsp : cw ' ' = 1) (h2 : ∀ c, cw c ≤ 2) (short : Bool)
+    (o : RichModel.Syntax.Opts) (found : Bool) (lex : List Char → List RichModel.Syntax.Line) (code : List Char)
+    (hn : o.lineNumbers = false) (rows : List RichModel.Syntax.Line)
+    (hr : RichModel.Syntax.plainRows cw false o found lex code = .ok rows) :
+    ∀ r ∈ rows, cellLen cw r ≤ (RichModel.Syntax.measureV short o code o.maxWidth).2 :=
+  RichModel.C17.measure_maximum_fits_without_numbers cw hsp h2 short o found lex code hn rows hr
+
+/-- Either variant: minimum ≤ maximum (with `code_width` None: once the width offered holds the numbers column). -/
+theorem syntax_measure_minimum_le_maximum (short : Bool) (o : RichModel.Syntax.Opts) (code : List Char) (maxWidth : Nat)
+    (h : o.codeWidth = none → RichModel.Syntax.numbersColumnWidth o code ≤ maxWidth) :
+    (RichModel.Syntax.measureV short o code maxWidth).1 ≤ (RichModel.Syntax.measureV short o code maxWidth).2 :=
+  RichModel.C17.measure_minimum_le_maximum short o code maxWidth h
+
+/-- As found (witness): with line numbers and an explicit `code_width` every row with a full code cell is one character
+longer than the reported maximum. -/
+theorem old_syntax_measure_maximum_one_short (cw : Char → Nat) (o : RichModel.Syntax.Opts) (found : Bool)
+    (lex : List Char → List RichModel.Syntax.Line) (code : List Char) (h : RichModel.C17.Setting o found lex code)
+    (hn : o.lineNumbers = true) (w : Nat) (hw : o.codeWidth = some w) :
+    ∃ rows, RichModel.Syntax.numberedRows cw false false o found lex code = .ok rows ∧
+      ∀ r ∈ rows, w ≤ r.body.length →
+        (RichModel.Syntax.measureV true o code o.maxWidth).2 <
+          (r.render (RichModel.Syntax.numbersColumnWidth o code) o.legacyWindows).length :=
+  RichModel.C17.old_measure_maximum_one_short_with_numbers cw o found lex code h hn w hw
 
 end RichModel.C09
